@@ -34,6 +34,9 @@ func (p *plugin) Config(
 	if err != nil {
 		return err
 	}
+	if p.Target == nil {
+		return fmt.Errorf("must specify the target")
+	}
 	if p.Target.Name == "" {
 		return fmt.Errorf("must specify the target name")
 	}
